@@ -17,10 +17,23 @@ formatted numbers (pyvc tokens) and interpreted by the TTML rule of specs/imsc_r
 `parse_time_expression` is compared with that rule in the bounded tier on a grid of times.
 
 Bounded tier: rtc/c05.py (colour channels exhaustively, time grid, focused documents, random documents).
+
+Whole round trip on document shapes (roundtrip_harness): for ALL rational timing values below 2^18 s the real IMSC writer produces an
+element tree whose time attributes are formatted symbolic numbers; the real IMSC reader reads that SAME tree back in the same symbolic
+run -- its compiled time-expression patterns are wrapped by pyvc.restub.TokenRegex (the real pattern decides on the text with every
+formatted value replaced by as many zeros as its field is wide; groups keep the formatted values) and int() / Fraction() of such a group is
+the value it spells (core.number_from_text); on every feasible path the document read back has, in order, every element that carries text
+or a line break and is shown for longer than one unit, nothing that the source does not present, and every begin / end offset exact when
+representable in the syntax and otherwise less than one unit away (thorough: order kept, pairwise).  clock_time, frames, and (thorough)
+clock_time_with_frames; shapes: two paragraphs, nested spans + br, rubies with timed parts, br with <set>.  ClockTime.from_seconds through
+its contract (contracts/callee.py), discharged in the same run.  This tier found that the reader dropped a zero-duration ruby part and
+with it every child of the ruby (repaired, c7b47e4).
 """
 from __future__ import annotations
 
 import math
+
+import z3
 from fractions import Fraction
 
 import framework
@@ -203,18 +216,34 @@ def harnesses(tier="quick"):
   return hs
 
 
+ROUNDTRIP_QUICK = [("twop", ("b1", "e1"), "clock_time", None), ("twop", ("b1", "e1"), "frames", "25"), ("twop", ("e1", "b2"), "clock_time", None),
+                   ("nested", ("s1b", "s3e"), "clock_time", None), ("nested", ("pb", "s1e"), "frames", "30"), ("rubyparts", ("rtb", "rte"), "clock_time", None),
+                   ("brset", ("pb", "pe"), "frames", "24")]
+ROUNDTRIP_THOROUGH = [("twop", ("b1", "e1"), "clock_time_with_frames", "30"), ("twop", ("b1", "e1", "e2"), "clock_time", None),
+                      ("nested", ("s1b", "s3b", "s3e"), "frames", "25"), ("regions", ("r1b", "r1e"), "clock_time", None)]
+
+
 def check(tier, seed, only=None, skip_a=False, skip_b=False):
+  from contracts.c12 import clock_harnesses
   hs = harnesses(tier)
+  hs += [h for h in clock_harnesses() if h.name.startswith("ClockTime.from_seconds")]      # discharge the callee contract used by the round trips
+  hs += [roundtrip_harness(*a, order=tier != "quick") for a in ROUNDTRIP_QUICK + (ROUNDTRIP_THOROUGH if tier != "quick" else [])]
   if only:
     hs = [h for h in hs if only in h.name]
   for h in hs:
-    h.budget_s = 60.0 if tier == "quick" else 600.0
+    h.budget_s = 300.0 if tier == "quick" else 1800.0
+    h.max_paths = 20000
   cov, findings, undecided, errors = ({}, [], [], [])
   if not skip_a:
     cov, findings, undecided, errors = framework.run_tier_a(PROP, hs)
   cov["trusted_base"] = ASSUMPTIONS
+  from contracts import callee
+  cov["assumed_callee_contracts"] = [{"callee": k, "stated_in": "contracts/callee.py", "discharged_in_this_run_by": v} for k, v in callee.DISCHARGED_BY.items()]
   cov["explanation"] = ("Tier A (proved for all rational times, per frame rate): the inverse lemmas of the three time-expression syntaxes "
-                        "(exact on representable times, < 1 unit otherwise, order kept, well-formed fields). Tier B (bounded, not counted as "
+                        "(exact on representable times, < 1 unit otherwise, order kept, well-formed fields); the WHOLE write -> read round trip "
+                        "on document shapes with symbolic timing (real writer, real reader on the same element tree, time attributes as formatted "
+                        "symbolic numbers): every element with content comes back in order, nothing is invented, every time offset exact when "
+                        "representable and otherwise within one unit. Tier B (bounded, not counted as "
                         "proved): colour channels exhaustively, time grid against the reader's parser, 1500+ focused documents (one feature "
                         "each: every style property x value form x placement, element kinds, text, lang / space, parameters, timing x 28 "
                         "configurations), random documents x rotating configurations.")
@@ -227,3 +256,138 @@ def check(tier, seed, only=None, skip_a=False, skip_b=False):
         cov["bounded_" + k if k == "exhaustive" else k] = data.get(k)
       cov["bounded_samples"] = data.get("samples", [])[:8]
   return framework.Outcome(PROP, tier, seed, "other", cov, ASSUMPTIONS, findings, undecided, errors, 0.0)
+
+
+# ---------------------------------------------------------------------------------------------------------------------
+# the whole round trip on document shapes with symbolic timing
+
+
+def _tm(c):
+  return c.term if hasattr(c, "term") else z3.BoolVal(bool(c))
+
+
+def _both(a, b):
+  return core.SymBool(z3.And(_tm(a), _tm(b)))
+
+
+def roundtrip_harness(shape, mask, syntax, rate=None, order=True):
+  """For ALL rational values of the masked timing attributes (below 2^18 s): the real IMSC writer produces an element tree whose time
+  attributes are formatted symbolic numbers (format tokens); the real IMSC reader reads that same tree back (its compiled time-expression
+  patterns wrapped by pyvc.restub.TokenRegex, numbers read by core.number_from_text); the document read back has the same structure,
+  and every begin / end is the written one: exact for times representable in the syntax, otherwise moved by less than one unit (1 ms /
+  one frame), never reordered against another time of the document."""
+  import ttconv.imsc.utils as imsc_utils
+  import ttconv.imsc.reader as imsc_reader
+  import ttconv.imsc.writer as imsc_writer
+  import ttconv.model as m
+  from ttconv.imsc.config import IMSCWriterConfiguration, TimeExpressionSyntaxEnum
+  from pyvc import restub
+  from specs.isd_shapes import SHAPES
+
+  unit = Fraction(1, 1000) if rate is None else 1 / RATES[rate]
+  NAMES = ["_CLOCK_TIME_FRACTION_RE", "_CLOCK_TIME_FRAMES_RE", "_OFFSET_FRAME_RE", "_OFFSET_TICK_RE", "_OFFSET_MS_RE", "_OFFSET_S_RE", "_OFFSET_H_RE", "_OFFSET_M_RE"]
+
+  def run(ctx):
+    vals = {}
+
+    def v(name):
+      if name not in mask:
+        return None
+      if name not in vals:
+        x = sym_frac(name)
+        assume(x >= 0)
+        assume(x < 2 ** 18)
+        vals[name] = x
+      return vals[name]
+
+    doc = SHAPES[shape](v)
+    cfg = IMSCWriterConfiguration(time_format=getattr(TimeExpressionSyntaxEnum, syntax), fps=RATES[rate] if rate else None)
+    from pyvc import modular
+    from contracts import callee
+    with modular.contracts(callee.CLOCKTIME):
+      st, tree = core.call_real(imsc_writer.from_model, doc, cfg, allowed=())
+    saved = {n: imsc_utils.__dict__[n] for n in NAMES}
+    for n in NAMES:
+      imsc_utils.__dict__[n] = restub.TokenRegex(getattr(saved[n], "_real", saved[n]))
+    try:
+      st, doc2 = core.call_real(imsc_reader.to_model, tree, allowed=())
+    finally:
+      for n in NAMES:
+        imsc_utils.__dict__[n] = saved[n]
+    prove(doc2 is not None, "the-written-document-is-read")
+    from specs import isd as ISDS
+
+    def flat(d):
+      """[(kind, begin offset, end offset, absolute begin, absolute end | None, text directly inside, line breaks directly inside)] in
+      document order (the reader does not keep xml:id: elements are paired by order, kind and direct content)"""
+      out = []
+
+      def walk(e, piv):
+        if isinstance(e, (m.Text, m.Br)):
+          return
+        iv = ISDS.interval(e.get_begin(), e.get_end(), piv[0], piv[1])
+        out.append((type(e).__name__, e.get_begin(), e.get_end(), iv[0], iv[1], "".join(c.get_text() for c in e if isinstance(c, m.Text)),
+                    sum(isinstance(c, m.Br) for c in e)))
+        for c in e:
+          walk(c, iv)
+      if d.get_body() is not None:
+        walk(d.get_body(), (Fraction(0), None))
+      return out
+
+    src, back = flat(doc), flat(doc2)
+    # demanded to come back: elements that carry text or a line break themselves and are presented for longer than one unit (a shorter
+    # interval may vanish in the written syntax; containers come back with what they contain)
+    mandatory = [bool((text or nbr) and (ae is None or (ae - ab > unit))) for (_, _, _, ab, ae, text, nbr) in src]
+    presented = [x for x in back if x[4] is None or bool(x[3] < x[4])]
+    kept = []
+    i = 0
+    for (kind1, b1, e1, ab1, ae1, text1, nbr1) in presented:
+      while i < len(src) and (src[i][0], src[i][5], src[i][6]) != (kind1, text1, nbr1) and not mandatory[i]:
+        i += 1
+      ok = i < len(src) and (src[i][0], src[i][5], src[i][6]) == (kind1, text1, nbr1)
+      prove(ok, f"element-read-back-is-the-next-element-of-the-source[{kind1}:{text1!r}]",
+            note=f"read back {(kind1, text1, nbr1)}, next in the source {(src[i][0], src[i][5], src[i][6]) if i < len(src) else None}")
+      if not ok:
+        break
+      kind, b0, e0, ab0, ae0, text, nbr = src[i]
+      i += 1
+      tag = f"{kind}:{text}"
+      if ae0 is not None and order:
+        # (a consequence of `order kept`; like the pairwise order clauses below it needs the monotonicity of two roundings at once,
+        # which costs the solvers minutes: thorough tier only -- the kernel harnesses prove `order kept` per syntax in every tier)
+        prove(ab0 < ae0, f"element-read-back-is-presented-in-the-source[{tag}]")
+      # the times of the element, as the model holds them (offsets from the parent's begin)
+      for t0, t1, what in ((b0, b1, "begin"), (e0, e1, "end")):
+        if t0 is None:
+          # an absent begin is 0; an absent end may come back as the implicit end of the container (checked through the children)
+          if what == "begin":
+            prove(t1 is None or bool(t1 == 0), f"absent-begin-stays-zero[{tag}]")
+          continue
+        if t1 is None and what == "begin":
+          t1 = Fraction(0)
+        prove(t1 is not None, f"{what}-is-read-back[{tag}]")
+        if t1 is None:
+          continue
+        prove(_both(t1 - t0 < unit, t0 - t1 < unit), f"{what}-moves-by-less-than-one-unit[{tag}]")
+        k = core.sym_int(f"k_{what}_{len(kept)}")
+        prove(core.SymBool(z3.Implies(_tm(t0 == k * unit), _tm(t1 == t0))), f"{what}-exact-when-representable[{tag}]")
+        kept.append((t0, t1))
+      # an end that was absent and came back bounded cuts nothing short: the element still ends where its source does, within the units
+      # its ancestors' offsets may have moved
+      if e0 is None and ae0 is None:
+        prove(ae1 is None or bool(ae1 >= ab1), f"unbounded-element-keeps-a-proper-interval[{tag}]")
+    else:
+      prove(not any(mandatory[i:]), "every-element-with-content-shown-longer-than-one-unit-is-read-back",
+            note=str([(x[0], x[5], x[6]) for x, mm in zip(src[i:], mandatory[i:]) if mm]))
+    for x in range(len(kept) if order else 0):
+      for y in range(x + 1, len(kept)):
+        (p0, p1), (q0, q1) = kept[x], kept[y]
+        prove(core.SymBool(z3.Implies(_tm(p0 <= q0), _tm(p1 <= q1))), f"order-of-times-kept[{x},{y}]")
+        prove(core.SymBool(z3.Implies(_tm(q0 <= p0), _tm(q1 <= p1))), f"order-of-times-kept[{y},{x}]")
+
+  return Harness(f"roundtrip[{shape}:{'+'.join(mask)};{syntax}{'@' + rate if rate else ''}]", run,
+                 ["ttconv.imsc.writer:from_model", "ttconv.imsc.reader:to_model", "ttconv.imsc.attributes:to_time_format", "ttconv.imsc.utils:parse_time_expression",
+                  "ttconv.imsc.elements:ContentElement.ParsingContext.process", "ttconv.imsc.elements:ContentElement.from_model"],
+                 "replayers.c05:shape", {"shape": shape, "mask": list(mask), "syntax": syntax, "rate": rate},
+                 "write -> read of the whole document: same structure, every time exact when representable, else within one unit, order kept "
+                 "(all rational timings below 2^18 s, this shape)")
